@@ -32,26 +32,30 @@ def unflat : List F → List (F × F)
 
 /--
 `Livetime.get_uptime_intervals_between(t_start, t_end)` — the index arithmetic as coded
-(including the early return for "no on-time inside the window").
+(including the early return for "no on-time inside the window"), as a function of the flat
+edge array and the two `digitize` results `s`, `e`.
 `none` stands for an `IndexError` of the Python code.
 -/
-def betweenIdx (ivs : List (F × F)) (t0 t1 : F) : Option (List (F × F)) :=
-  let edges := flat ivs
-  let s := digitize edges t0
-  let e := digitize edges t1
-  let sAdj := if s % 2 == 0 then s else s - 1
-  let eAdj := if e % 2 == 0 then e else e + 1
-  if eAdj ≤ sAdj then some []
+def adjS (s : Nat) : Nat := if s % 2 = 0 then s else s - 1
+def adjE (e : Nat) : Nat := if e % 2 = 0 then e else e + 1
+
+def betweenCore (edges : List F) (s e : Nat) (t0 t1 : F) : Option (List (F × F)) :=
+  -- t_start_idx / t_end_idx after the parity adjustment (both even)
+  if adjE e ≤ adjS s then some []
   else
-    let tStart? := if s % 2 == 0 then edges[s]? else some t0
-    let tEnd? := if e % 2 == 0 then edges[e - 1]? else some t1
-    match tStart?, tEnd? with
+    -- s even: t_start is during off-time, use the next on-time lower edge; e even: t_end is during
+    -- off-time, use the previous on-time upper edge
+    match (if s % 2 = 0 then edges[s]? else some t0), (if e % 2 = 0 then edges[e - 1]? else some t1) with
     | some tStart, some tEnd =>
-      let n := (eAdj - sAdj) / 2
-      let mid := if n > 1 then (edges.drop (sAdj + 1)).take (eAdj - 1 - (sAdj + 1)) else []
-      -- flat[0] = tStart; flat[-1] = tEnd (for n = 1 the two assignments hit a 2-element array)
+      -- N_ontime_intervals = (eAdj - sAdj)/2; intermediate edges only if N > 1;
+      -- flat[0] = tStart; flat[-1] = tEnd (for N = 1 the two assignments hit a 2-element array)
+      let mid := if (adjE e - adjS s) / 2 > 1
+        then (edges.drop (adjS s + 1)).take (adjE e - 1 - (adjS s + 1)) else []
       some (unflat ([tStart] ++ mid ++ [tEnd]))
     | _, _ => none
+
+def betweenIdx (ivs : List (F × F)) (t0 t1 : F) : Option (List (F × F)) :=
+  betweenCore (flat ivs) (digitize (flat ivs) t0) (digitize (flat ivs) t1) t0 t1
 
 end order
 
